@@ -10,6 +10,7 @@ import (
 	"golang.org/x/tools/go/ssa"
 
 	"verif/sa/internal/core"
+	"verif/sa/internal/eff"
 	"verif/sa/internal/flow"
 )
 
@@ -405,4 +406,174 @@ func guardedByNilTest(b *ssa.BasicBlock, cell ssa.Value) bool {
 		}
 	}
 	return false
+}
+
+// checkLoadChainDivisions (O15.5): "never panics" — an integer division or remainder in the load chain whose divisor can be
+// zero (a file size, a byte count: zero for an empty file) panics instead of returning the error. The divisor must be a
+// non-zero constant or be tested non-zero / positive on the path.
+func checkLoadChainDivisions(p *core.Program, r *core.Report, chain []flow.FuncUnit) {
+	n := 0
+	var bad []string
+	for _, u := range chain {
+		fd, ok := u.Node.(*ast.FuncDecl)
+		if !ok {
+			continue
+		}
+		obj, _ := u.Pkg.TypesInfo.Defs[fd.Name].(*types.Func)
+		fn := p.SSA.FuncValue(obj)
+		if fn == nil {
+			continue
+		}
+		var fns []*ssa.Function
+		var coll func(f *ssa.Function)
+		coll = func(f *ssa.Function) {
+			fns = append(fns, f)
+			for _, a := range f.AnonFuncs {
+				coll(a)
+			}
+		}
+		coll(fn)
+		for _, f := range fns {
+			for _, b := range f.Blocks {
+				for _, in := range b.Instrs {
+					bo, ok := in.(*ssa.BinOp)
+					if !ok || (bo.Op != token.QUO && bo.Op != token.REM) || !isIntegerType(bo.Type()) {
+						continue
+					}
+					if c, isC := bo.Y.(*ssa.Const); isC && c.Value != nil && constantInt(c.Value) != 0 {
+						continue
+					}
+					n++
+					if !nonZeroOnPath(bo.Y, b) {
+						bad = append(bad, fmt.Sprintf("%s at %s divides by a value that is not tested to be non-zero", core.FuncName(f), p.Pos(bo.Pos())))
+					}
+				}
+			}
+		}
+	}
+	r.Count("integer divisions in the load chain", n)
+	if len(bad) == 0 {
+		r.OK("O15.5", "load chain: integer divisions cannot divide by zero", "-", "%d division(s) with a non-constant divisor, each guarded", n)
+		return
+	}
+	for i, b := range bad {
+		r.Violation("O15.5", fmt.Sprintf("load chain: integer division #%d", i+1), "-", "%s: for an empty or short file the divisor (a size or count) is zero and the loader panics instead of returning the error", b)
+	}
+}
+
+// nonZeroOnPath: a branch dominating b, on b's side, tests v (or what it was converted from) != 0, > 0, >= c>0 …
+func nonZeroOnPath(v ssa.Value, b *ssa.BasicBlock) bool {
+	root := func(x ssa.Value) ssa.Value {
+		for {
+			switch y := x.(type) {
+			case *ssa.Convert:
+				x = y.X
+				continue
+			case *ssa.ChangeType:
+				x = y.X
+				continue
+			}
+			return x
+		}
+	}
+	rv := root(v)
+	for d := b.Idom(); d != nil; d = d.Idom() {
+		iff, ok := d.Instrs[len(d.Instrs)-1].(*ssa.If)
+		if !ok {
+			continue
+		}
+		onT := (d.Succs[0] == b || d.Succs[0].Dominates(b)) && len(d.Succs[0].Preds) == 1
+		onF := (d.Succs[1] == b || d.Succs[1].Dominates(b)) && len(d.Succs[1].Preds) == 1
+		if onT == onF {
+			continue
+		}
+		bo, ok := iff.Cond.(*ssa.BinOp)
+		if !ok {
+			continue
+		}
+		op, x, y := bo.Op, bo.X, bo.Y
+		if root(y) == rv {
+			x, y = y, x
+			op = flipCmpTok(op)
+		}
+		if root(x) != rv {
+			continue
+		}
+		c, isC := y.(*ssa.Const)
+		if !isC || c.Value == nil {
+			continue
+		}
+		k := constantInt(c.Value)
+		if onF {
+			op = negCmpTok(op)
+		}
+		switch {
+		case op == token.NEQ && k == 0, op == token.GTR && k >= 0, op == token.GEQ && k >= 1:
+			return true
+		}
+	}
+	return false
+}
+
+// checkLoadChainState (O15.6): whether a truncated file is rejected must not depend on what was loaded before: the load
+// chain uses no package-level variable that any non-initialiser function of the repository writes (a package-level scratch
+// buffer keeps the bytes of the previous, longer file behind the truncated one).
+func checkLoadChainState(p *core.Program, r *core.Report, chain []flow.FuncUnit) {
+	g := eff.BuildGraph(p)
+	writers := eff.GlobalWriters(g)
+	written := map[*ssa.Global]*ssa.Function{}
+	for f, gs := range writers {
+		for _, gl := range gs {
+			written[gl] = f
+		}
+	}
+	var bad []string
+	nFn := 0
+	for _, u := range chain {
+		fd, ok := u.Node.(*ast.FuncDecl)
+		if !ok {
+			continue
+		}
+		obj, _ := u.Pkg.TypesInfo.Defs[fd.Name].(*types.Func)
+		fn := p.SSA.FuncValue(obj)
+		if fn == nil {
+			continue
+		}
+		var fns []*ssa.Function
+		var coll func(f *ssa.Function)
+		coll = func(f *ssa.Function) {
+			fns = append(fns, f)
+			for _, a := range f.AnonFuncs {
+				coll(a)
+			}
+		}
+		coll(fn)
+		for _, f := range fns {
+			nFn++
+			for _, b := range f.Blocks {
+				for _, in := range b.Instrs {
+					for _, op := range in.Operands(nil) {
+						if op == nil || *op == nil {
+							continue
+						}
+						gl, ok := (*op).(*ssa.Global)
+						if !ok || gl.Pkg == nil || !core.InRepo(gl.Pkg.Pkg.Path()) || gl.Pkg.Pkg.Name() == "logging" {
+							continue
+						}
+						if w, isW := written[gl]; isW {
+							bad = append(bad, fmt.Sprintf("%s uses package-level variable %s at %s, which %s writes", core.FuncName(f), gl.Name(), p.Pos(in.Pos()), core.FuncName(w)))
+						}
+					}
+				}
+			}
+		}
+	}
+	bad = uniqStrings(bad)
+	if len(bad) == 0 {
+		r.OK("O15.6", "load chain: no state kept between loads", "-", "%d function(s) of the load chain use no package-level variable written outside initialisers", nFn)
+		return
+	}
+	for i, b := range bad {
+		r.Violation("O15.6", fmt.Sprintf("load chain: package-level state #%d", i+1), "-", "%s: the outcome of loading a (truncated) file then depends on what was loaded before", b)
+	}
 }
